@@ -8,6 +8,8 @@ import Mathlib.Analysis.Real.Sqrt
 import Mathlib.Data.Complex.Basic
 import Mathlib.Tactic.Ring
 import Mathlib.Data.Nat.Factorial.Basic
+import Mathlib.Algebra.BigOperators.Intervals
+import Mathlib.Tactic.Linarith
 
 namespace Ampverif.Lemmas.C03CG
 open Ampverif.Model.C03CG
@@ -127,23 +129,32 @@ structure LSTerm where
   a : ℂ
 
 /-- `F_{λ₁λ₂} = Σ_{LS} a_{LS} ⟨L 0; S δ | J δ⟩ ⟨s₁ λ₁; s₂ −λ₂ | S δ⟩`, `δ = λ₁ − λ₂` — the expansion
-ampform's canonical builder writes (`formulate_isobar_cg_coefficients`), everything doubled. -/
-noncomputable def coupling (t : Table) (J s1 s2 : Nat) (terms : List LSTerm) (l1 l2 : Int) : ℂ :=
+ampform's canonical builder writes (`formulate_isobar_cg_coefficients`), everything doubled, for
+an arbitrary Clebsch–Gordan function `f`. -/
+noncomputable def couplingF (f : Nat → Int → Nat → Int → Nat → Int → ℝ) (J s1 s2 : Nat)
+    (terms : List LSTerm) (l1 l2 : Int) : ℂ :=
   (terms.map fun x =>
-    x.a * ((cg t x.L 0 x.S (l1 - l2) J (l1 - l2) : ℝ) : ℂ)
-        * ((cg t s1 l1 s2 (-l2) x.S (l1 - l2) : ℝ) : ℂ)).sum
+    x.a * ((f x.L 0 x.S (l1 - l2) J (l1 - l2) : ℝ) : ℂ)
+        * ((f s1 l1 s2 (-l2) x.S (l1 - l2) : ℝ) : ℂ)).sum
 
-/-- For a symmetric table, LS terms with `(−1)^L = PP` (`PP = P·P₁·P₂`; `L` integral) and integral
-`L+S−J`, `s₁+s₂−S`: `F_{−λ₁,−λ₂} = PP·(−1)^(s₁+s₂−J) · F_{λ₁λ₂}` (all momenta doubled). -/
-theorem coupling_flip (t : Table) (ht : t.symmetric = true) (J s1 s2 : Nat) (PP : Int)
-    (terms : List LSTerm)
+/-- the expansion with the values of a table. -/
+noncomputable def coupling (t : Table) (J s1 s2 : Nat) (terms : List LSTerm) (l1 l2 : Int) : ℂ :=
+  couplingF (cg t) J s1 s2 terms l1 l2
+
+/-- For every mirror-symmetric CG function, LS terms with `(−1)^L = PP` (`PP = P·P₁·P₂`; `L`
+integral) and integral `L+S−J`, `s₁+s₂−S`: `F_{−λ₁,−λ₂} = PP·(−1)^(s₁+s₂−J) · F_{λ₁λ₂}`
+(all momenta doubled). -/
+theorem couplingF_flip (f : Nat → Int → Nat → Int → Nat → Int → ℝ)
+    (hf : ∀ j1 m1 j2 m2 J M, f j1 (-m1) j2 (-m2) J (-M)
+      = (phase ((j1 : Int) + (j2 : Int) - (J : Int)) : ℝ) * f j1 m1 j2 m2 J M)
+    (J s1 s2 : Nat) (PP : Int) (terms : List LSTerm)
     (hL : ∀ x ∈ terms, phase (x.L : Int) = PP ∧ (x.L : Int) % 2 = 0
       ∧ ((x.L : Int) + (x.S : Int) - (J : Int)) % 2 = 0
       ∧ ((s1 : Int) + (s2 : Int) - (x.S : Int)) % 2 = 0)
     (l1 l2 : Int) :
-    coupling t J s1 s2 terms (-l1) (-l2)
-      = ((PP * phase ((s1 : Int) + (s2 : Int) - (J : Int)) : Int) : ℂ) * coupling t J s1 s2 terms l1 l2 := by
-  unfold coupling
+    couplingF f J s1 s2 terms (-l1) (-l2)
+      = ((PP * phase ((s1 : Int) + (s2 : Int) - (J : Int)) : Int) : ℂ) * couplingF f J s1 s2 terms l1 l2 := by
+  unfold couplingF
   induction terms with
   | nil => simp
   | cons x rest ih =>
@@ -152,8 +163,8 @@ theorem coupling_flip (t : Table) (ht : t.symmetric = true) (J s1 s2 : Nat) (PP 
     simp only [List.map_cons, List.sum_cons]
     rw [hrest]
     have e1 : (-l1 - -l2 : Int) = -(l1 - l2) := by ring
-    have c1 := cg_flip t ht x.L 0 x.S (l1 - l2) J (l1 - l2)
-    have c2 := cg_flip t ht s1 l1 s2 (-l2) x.S (l1 - l2)
+    have c1 := hf x.L 0 x.S (l1 - l2) J (l1 - l2)
+    have c2 := hf s1 l1 s2 (-l2) x.S (l1 - l2)
     simp only [neg_zero] at c1
     rw [e1, c1, c2]
     obtain ⟨hP, hLe, hA, hB⟩ := hx
@@ -170,26 +181,134 @@ theorem coupling_flip (t : Table) (ht : t.symmetric = true) (J s1 s2 : Nat) (PP 
     push_cast
     ring
 
-/-! ### Racah's closed formula (only used to STATE the unbounded symmetry; nothing is proved about it) -/
+theorem coupling_flip (t : Table) (ht : t.symmetric = true) (J s1 s2 : Nat) (PP : Int)
+    (terms : List LSTerm)
+    (hL : ∀ x ∈ terms, phase (x.L : Int) = PP ∧ (x.L : Int) % 2 = 0
+      ∧ ((x.L : Int) + (x.S : Int) - (J : Int)) % 2 = 0
+      ∧ ((s1 : Int) + (s2 : Int) - (x.S : Int)) % 2 = 0)
+    (l1 l2 : Int) :
+    coupling t J s1 s2 terms (-l1) (-l2)
+      = ((PP * phase ((s1 : Int) + (s2 : Int) - (J : Int)) : Int) : ℂ) * coupling t J s1 s2 terms l1 l2 :=
+  couplingF_flip (cg t) (cg_flip t ht) J s1 s2 PP terms hL l1 l2
 
-/-- `1/n!` for `n ≥ 0`, `0` for `n < 0` (argument doubled: `n = x/2`). -/
-noncomputable def invFactHalf (x : Int) : ℝ :=
-  if x < 0 ∨ x % 2 ≠ 0 then 0 else 1 / ((x / 2).toNat.factorial : ℝ)
+/-! ### Racah's closed formula and its mirror symmetry for ALL spins -/
 
-noncomputable def factHalf (x : Int) : ℝ :=
-  if x < 0 ∨ x % 2 ≠ 0 then 0 else ((x / 2).toNat.factorial : ℝ)
+section racah
+open Finset
 
-/-- Racah's formula for `⟨j₁ m₁; j₂ m₂ | J M⟩`, all arguments doubled. -/
+noncomputable def iF (x : Int) : ℝ := if x < 0 ∨ x % 2 ≠ 0 then 0 else 1 / ((x / 2).toNat.factorial : ℝ)
+
+noncomputable def T (a b c m1 m2 : Int) (k : ℕ) : ℝ :=
+  (-1) ^ k * iF (2 * k) * iF (a + b - c - 2 * k) * iF (a - m1 - 2 * k) * iF (b + m2 - 2 * k)
+    * iF (c - b + m1 + 2 * k) * iF (c - a - m2 + 2 * k)
+
+theorem iF_neg (x : Int) (h : x < 0) : iF x = 0 := by simp [iF, h]
+theorem iF_odd (x : Int) (h : x % 2 ≠ 0) : iF x = 0 := by simp [iF, h]
+
+theorem T_zero_of_bad (a b c m1 m2 : Int) (k : ℕ) (h : a + b - c < 0 ∨ (a + b - c) % 2 ≠ 0) :
+    T a b c m1 m2 k = 0 := by
+  have : iF (a + b - c - 2 * k) = 0 := by
+    rcases h with h | h
+    · apply iF_neg; omega
+    · apply iF_odd; omega
+  simp [T, this]
+
+theorem T_zero_of_large (a b c m1 m2 : Int) (N k : ℕ) (h : a + b - c = 2 * N) (hk : N < k) :
+    T a b c m1 m2 k = 0 := by
+  have : iF (a + b - c - 2 * k) = 0 := by apply iF_neg; omega
+  simp [T, this]
+
+theorem neg_one_pow_sub (N k : ℕ) (hk : k ≤ N) : ((-1 : ℝ)) ^ (N - k) = (-1) ^ N * (-1) ^ k := by
+  have h1 : ((-1 : ℝ)) ^ N = (-1) ^ (N - k) * (-1) ^ k := by rw [← pow_add, Nat.sub_add_cancel hk]
+  have h2 : ((-1 : ℝ)) ^ k * (-1) ^ k = 1 := by rw [← mul_pow]; simp
+  rw [h1, mul_assoc, h2, mul_one]
+
+theorem T_reflect (a b c m1 m2 : Int) (N k : ℕ) (h : a + b - c = 2 * N) (hk : k ≤ N) :
+    T a b c (-m1) (-m2) (N - k) = (-1) ^ N * T a b c m1 m2 k := by
+  unfold T
+  have hc : ((N - k : ℕ) : ℤ) = (N : ℤ) - k := Nat.cast_sub hk
+  have e1 : (2 * ((N - k : ℕ) : ℤ)) = a + b - c - 2 * k := by rw [hc]; omega
+  rw [e1, neg_one_pow_sub N k hk]
+  have f2 : a + b - c - (a + b - c - 2 * (k : ℤ)) = 2 * k := by ring
+  have f3 : a - -m1 - (a + b - c - 2 * (k : ℤ)) = c - b + m1 + 2 * k := by ring
+  have f4 : b + -m2 - (a + b - c - 2 * (k : ℤ)) = c - a - m2 + 2 * k := by ring
+  have f5 : c - b + -m1 + (a + b - c - 2 * (k : ℤ)) = a - m1 - 2 * k := by ring
+  have f6 : c - a - -m2 + (a + b - c - 2 * (k : ℤ)) = b + m2 - 2 * k := by ring
+  rw [f2, f3, f4, f5, f6]
+  ring
+
+theorem sum_reflect (a b c m1 m2 : Int) (n : ℕ) (hab : (n : ℤ) ≥ a + b - c) :
+    ∑ k ∈ range (n + 1), T a b c (-m1) (-m2) k
+      = (if (a + b - c) % 4 = 0 then (1 : ℝ) else -1) * ∑ k ∈ range (n + 1), T a b c m1 m2 k := by
+  by_cases hbad : a + b - c < 0 ∨ (a + b - c) % 2 ≠ 0
+  · simp [T_zero_of_bad _ _ _ _ _ _ hbad]
+  · simp only [not_or, not_lt, ne_eq, not_not] at hbad
+    obtain ⟨N, hN⟩ : ∃ N : ℕ, a + b - c = 2 * N := ⟨((a + b - c) / 2).toNat, by omega⟩
+    have hNn : N ≤ n := by omega
+    have cut : ∀ m1 m2 : Int, ∑ k ∈ range (n + 1), T a b c m1 m2 k = ∑ k ∈ range (N + 1), T a b c m1 m2 k := by
+      intro m1 m2
+      symm
+      apply sum_subset (range_mono (by omega))
+      intro k _ hk
+      apply T_zero_of_large a b c m1 m2 N k hN
+      simp only [mem_range] at hk; omega
+    rw [cut, cut, ← sum_range_reflect (fun k => T a b c (-m1) (-m2) k) (N + 1), mul_sum]
+    apply sum_congr rfl
+    intro k hk
+    simp only [mem_range] at hk
+    have hk' : k ≤ N := by omega
+    have : N + 1 - 1 - k = N - k := by omega
+    rw [this, T_reflect a b c m1 m2 N k hN hk']
+    congr 1
+    have h4 : (a + b - c) % 4 = 0 ↔ N % 2 = 0 := by omega
+    by_cases hev : N % 2 = 0
+    · have : Even N := Nat.even_iff.mpr hev
+      simp [h4.mpr hev, this.neg_one_pow]
+    · have : Odd N := Nat.odd_iff.mpr (by omega)
+      have h4' : ¬ (a + b - c) % 4 = 0 := fun e => hev (h4.mp e)
+      simp [h4', this.neg_one_pow]
+
+noncomputable def fH (x : Int) : ℝ := if x < 0 ∨ x % 2 ≠ 0 then 0 else ((x / 2).toNat.factorial : ℝ)
+
+/-- the `m`-dependent square-root factor of Racah's formula. -/
+noncomputable def racahB (a b c m1 m2 M : Int) : ℝ :=
+  fH (c + M) * fH (c - M) * fH (a - m1) * fH (a + m1) * fH (b - m2) * fH (b + m2)
+
+/-- Racah's formula for `⟨j₁ m₁; j₂ m₂ | J M⟩`, all arguments doubled:
+`δ_{M,m₁+m₂} √[(2J+1)(J+j₁−j₂)!(J−j₁+j₂)!(j₁+j₂−J)!/(j₁+j₂+J+1)!] √[(J±M)!(j₁±m₁)!(j₂±m₂)!]
+ Σ_k (−1)^k / [k!(j₁+j₂−J−k)!(j₁−m₁−k)!(j₂+m₂−k)!(J−j₂+m₁+k)!(J−j₁−m₂+k)!]`. -/
 noncomputable def racah (j1 : Nat) (m1 : Int) (j2 : Nat) (m2 : Int) (J : Nat) (M : Int) : ℝ :=
-  let a : Int := j1; let b : Int := j2; let c : Int := J
   if M ≠ m1 + m2 then 0 else
-  Real.sqrt (((c : ℝ) + 1) * factHalf (c + a - b) * factHalf (c - a + b) * factHalf (a + b - c)
-      * invFactHalf (a + b + c + 2))
-    * Real.sqrt (factHalf (c + M) * factHalf (c - M) * factHalf (a - m1) * factHalf (a + m1)
-      * factHalf (b - m2) * factHalf (b + m2))
-    * ((List.range (j1 + j2 + 1)).map fun k =>
-        ((-1 : ℝ) ^ k) * invFactHalf (2 * k) * invFactHalf (a + b - c - 2 * k)
-          * invFactHalf (a - m1 - 2 * k) * invFactHalf (b + m2 - 2 * k)
-          * invFactHalf (c - b + m1 + 2 * k) * invFactHalf (c - a - m2 + 2 * k)).sum
+  Real.sqrt ((((J : Int) : ℝ) + 1) * fH ((J : Int) + j1 - j2) * fH ((J : Int) - j1 + j2) * fH ((j1 : Int) + j2 - J)
+      * iF ((j1 : Int) + j2 + J + 2))
+    * Real.sqrt (racahB j1 j2 J m1 m2 M)
+    * ∑ k ∈ range (j1 + j2 + 1), T j1 j2 J m1 m2 k
+
+theorem racahB_neg (a b c m1 m2 M : Int) : racahB a b c (-m1) (-m2) (-M) = racahB a b c m1 m2 M := by
+  unfold racahB
+  simp only [sub_neg_eq_add, ← sub_eq_add_neg]
+  ring
+
+/-- `⟨j₁ −m₁; j₂ −m₂ | J −M⟩ = (−1)^(j₁+j₂−J) ⟨j₁ m₁; j₂ m₂ | J M⟩` for Racah's formula, ALL spins. -/
+theorem racah_flip (j1 : Nat) (m1 : Int) (j2 : Nat) (m2 : Int) (J : Nat) (M : Int) :
+    racah j1 (-m1) j2 (-m2) J (-M)
+      = (phase ((j1 : Int) + (j2 : Int) - (J : Int)) : ℝ) * racah j1 m1 j2 m2 J M := by
+  unfold racah
+  by_cases hM : M = m1 + m2
+  · have h1 : ¬ (-M ≠ -m1 + -m2) := by intro h; apply h; omega
+    have h2 : ¬ (M ≠ m1 + m2) := fun h => h hM
+    rw [if_neg h1, if_neg h2, racahB_neg]
+    have hs := sum_reflect (j1 : Int) (j2 : Int) (J : Int) m1 m2 (j1 + j2) (by push_cast; omega)
+    rw [hs]
+    have hp : ((phase ((j1 : Int) + (j2 : Int) - (J : Int)) : Int) : ℝ)
+        = if ((j1 : Int) + (j2 : Int) - (J : Int)) % 4 = 0 then (1 : ℝ) else -1 := by
+      unfold phase; split <;> simp
+    rw [hp]
+    ring
+  · have h1 : -M ≠ -m1 + -m2 := by intro h; apply hM; omega
+    rw [if_pos h1, if_pos hM]
+    simp
+
+end racah
 
 end Ampverif.Lemmas.C03CG
